@@ -889,3 +889,201 @@ static void vo_return(uint32_t nil, uint32_t d) {
 }
 void h_vo_return(void) { int k = nd_int(); if (k == 0) vo_return(0, 0); else if (k == 1) vo_return(0, 3); else if (k == 2) vo_return(0, 2); else vo_return(1, 0); }
 #endif
+
+/* =====================================================================================================
+ * Group 6: building argument lists and data-structure literals.
+ * The argument area of the fiber is data[stackstart .. stacktop).  PUSH* append to it (through fiber.c, whose
+ * contract - append in order, possibly moving the whole stack to a bigger block - is played by the stubs, which
+ * really move the stack when g_move is set); MAKE_* consume it in order and reset it.
+ * ===================================================================================================== */
+#if defined(VO_PUSH) || defined(VO_MAKE)
+static __typeof__(vo_mem) vo_mem2;
+static int g_move;                      /* CONSTANT per run: does fiber.c move the stack to a new block? */
+#define VO_BLK (g_move ? &vo_mem2 : &vo_mem)
+#define VO_START (JANET_FRAME_SIZE + VO_SLOTS + JANET_FRAME_SIZE)
+static int32_t vo_nargs;                /* values already in the argument area before the instruction */
+/* after vo_setup: put n0 values into the argument area (their contents are already symbolic) */
+static void vo_setup_args(int32_t n0) {
+    vo_nargs = n0;
+    vo_fiber.stacktop = vo_fiber.stackstart + n0;
+}
+static void vo_relocate(void) {
+    if (g_move) {
+        vo_mem2 = vo_mem;
+        vo_fiber.data = (Janet *) &vo_mem2;
+        /* the old block is gone: anything still written there is lost */
+        vo_mem.fr.pc = (uint32_t *)0;
+    }
+}
+/* the instruction completed: next instruction, frame header and fiber geometry as documented, in the block the stack lives in now */
+static void vo_continues6(JanetSignal sig, int32_t top) {
+    __CPROVER_assert(sig == JANET_SIGNAL_DEBUG, "vm.op: the instruction does not leave the interpreter");
+    __CPROVER_assert(vo_fiber.data == (Janet *) VO_BLK, "vm.op: the fiber's stack is where fiber.c left it");
+    __CPROVER_assert(VO_BLK->fr.pc == vo_code + VO_PC0 + 1, "vm.op: execution continues at the next instruction, recorded in the frame of the live stack block");
+    __CPROVER_assert(VO_BLK->fr.func == vo_func && VO_BLK->fr.prevframe == 0 && VO_BLK->fr.env == (JanetFuncEnv *)0, "vm.op: the frame header is untouched");
+    __CPROVER_assert(vo_fiber.frame == JANET_FRAME_SIZE && vo_fiber.stackstart == VO_START, "vm.op: the fiber keeps its frame and the start of its argument area");
+    __CPROVER_assert(vo_fiber.stacktop == top, "vm.op: the argument area ends where documented");
+    __CPROVER_assert(vo_fiber.child == (JanetFiber *)0, "vm.op: no child fiber is chained");
+}
+/* cells [0, VO_NDATA) other than `except` and other than [from, VO_NDATA) keep their values */
+static void vo_cells_kept(uint32_t except, uint32_t from) {
+    for (uint32_t k = 0; k < VO_NDATA; k++)
+        if (k != except && k < from) __CPROVER_assert(same(VO_BLK->slots[k], vo_old[k]), "vm.op: every other stack cell keeps its value");
+}
+#endif
+
+#ifdef VO_PUSH
+static int g_push_calls, g_push_n;
+static Janet g_push_v[3];
+static JanetFiber *g_push_fiber;
+static const Janet *g_push_arr;
+static int32_t g_push_arrn;
+#define PUSH_COMMON(n) g_push_calls++; g_push_n = (n); g_push_fiber = fiber; vo_relocate()
+void vo_push_stub(JanetFiber *fiber, Janet x) { PUSH_COMMON(1); g_push_v[0] = x; fiber->data[fiber->stacktop] = x; fiber->stacktop += 1; }
+void vo_push2_stub(JanetFiber *fiber, Janet x, Janet y) { PUSH_COMMON(2); g_push_v[0] = x; g_push_v[1] = y; fiber->data[fiber->stacktop] = x; fiber->data[fiber->stacktop + 1] = y; fiber->stacktop += 2; }
+void vo_push3_stub(JanetFiber *fiber, Janet x, Janet y, Janet z) { PUSH_COMMON(3); g_push_v[0] = x; g_push_v[1] = y; g_push_v[2] = z;
+    fiber->data[fiber->stacktop] = x; fiber->data[fiber->stacktop + 1] = y; fiber->data[fiber->stacktop + 2] = z; fiber->stacktop += 3; }
+/* PUSH_ARRAY */
+static int g_view_calls, g_view_ret; static Janet g_view_seq; static Janet vo_viewdata[2]; static int32_t g_view_len;
+int vo_indexed_view_stub(Janet seq, const Janet **data, int32_t *len) {
+    g_view_calls++; g_view_seq = seq; g_view_ret = nd_int();
+    if (g_view_ret) { g_view_len = nd_i32(); __CPROVER_assume(g_view_len >= 0); *data = vo_viewdata; *len = g_view_len; }
+    return g_view_ret;
+}
+void vo_pushn_stub(JanetFiber *fiber, const Janet *arr, int32_t n) { PUSH_COMMON(-1); g_push_arr = arr; g_push_arrn = n; }
+
+/* n = 1, 2, 3: PUSH D / PUSH_2 A E / PUSH_3 A B C;  r0..r2 the operand registers */
+static void vo_push(int n, uint32_t r0, uint32_t r1, uint32_t r2, int32_t n0, int move) {
+    uint32_t w = n == 1 ? VO_WD(JOP_PUSH, r0) : n == 2 ? VO_WE(JOP_PUSH_2, r0, r1) : VO_W(JOP_PUSH_3, r0, r1, r2);
+    vo_setup(w, r0, r1, r2);
+    vo_setup_args(n0);
+    g_move = move; g_push_calls = 0;
+    JanetSignal sig = vo_run();
+    vo_continues6(sig, VO_START + n0 + n);
+    __CPROVER_assert(g_push_calls == 1 && g_push_n == n && g_push_fiber == &vo_fiber, "vm.op: exactly one push of the instruction's width onto this fiber");
+    __CPROVER_assert(same(g_push_v[0], vo_old[r0]) && (n < 2 || same(g_push_v[1], vo_old[r1])) && (n < 3 || same(g_push_v[2], vo_old[r2])), "vm.op: the operand values are pushed in operand order, unchanged");
+    /* consequence, with fiber.c's contract: the argument area now ends with the operands in order */
+    uint32_t at = VO_SLOTS + JANET_FRAME_SIZE + n0;
+    __CPROVER_assert(same(VO_BLK->slots[at], vo_old[r0]) && (n < 2 || same(VO_BLK->slots[at + 1], vo_old[r1])) && (n < 3 || same(VO_BLK->slots[at + 2], vo_old[r2])), "vm.op: the argument area ends with the operands in order");
+    vo_cells_kept(VO_NDATA, at);
+    REACH("vm.op push");
+}
+void h_vo_push(void) { int k = nd_int();
+#if VO_PUSH == 1
+    if (k == 0) vo_push(1, 0, 0, 0, 0, 0); else if (k == 1) vo_push(1, 3, 0, 0, 1, 0); else if (k == 2) vo_push(1, 1, 0, 0, 0, 1); else vo_push(1, 2, 0, 0, 1, 1);
+#elif VO_PUSH == 2
+    if (k == 0) vo_push(2, 0, 1, 0, 0, 0); else if (k == 1) vo_push(2, 1, 1, 0, 1, 0); else if (k == 2) vo_push(2, 3, 0, 0, 0, 1); else vo_push(2, 2, 2, 0, 1, 1);
+#else
+    if (k == 0) vo_push(3, 0, 1, 2, 0, 0); else if (k == 1) vo_push(3, 1, 1, 2, 1, 0); else if (k == 2) vo_push(3, 3, 0, 3, 0, 1); else vo_push(3, 2, 1, 0, 1, 1);
+#endif
+}
+static void vo_push_array(uint32_t d, int32_t n0, int move) {
+    vo_setup(VO_WD(JOP_PUSH_ARRAY, d), d, 0, 0);
+    vo_setup_args(n0);
+    g_move = move; g_push_calls = 0; g_view_calls = 0;
+    JanetSignal sig = vo_run();
+    /* the stub for pushn does not model the copy (fiber.c's contract): stacktop is unchanged here */
+    vo_continues6(sig, VO_START + n0);
+    __CPROVER_assert(g_view_calls == 1 && same(g_view_seq, vo_old[d]), "vm.op: the operand is viewed as an indexed collection exactly once");
+    __CPROVER_assert(g_view_ret != 0, "vm.op: an operand that is not an array or tuple raises");
+    __CPROVER_assert(g_push_calls == 1 && g_push_n == -1 && g_push_fiber == &vo_fiber && g_push_arr == vo_viewdata && g_push_arrn == g_view_len, "vm.op: exactly the viewed elements are pushed, all of them, in one block (so in order)");
+    vo_cells_kept(VO_NDATA, VO_NDATA);
+    REACH("vm.op push array");
+}
+void h_vo_push_array(void) { int k = nd_int(); if (k == 0) vo_push_array(0, 0, 0); else if (k == 1) vo_push_array(3, 1, 0); else if (k == 2) vo_push_array(1, 0, 1); else vo_push_array(2, 2, 1); }
+#endif
+
+#ifdef VO_MAKE
+/* -DVO_MK=<n> selects the constructor */
+#define MK_ARRAY 1
+#define MK_TUPLE 2
+#define MK_BTUPLE 3
+#define MK_TABLE 4
+#define MK_STRUCT 5
+#define MK_STRING 6
+#define MK_BUFFER 7
+static int g_mk_calls, g_put_calls, g_end_calls, g_tostr_calls, g_str_calls, g_init_calls, g_deinit_calls;
+static const Janet *g_mk_mem; static int32_t g_mk_count, g_mk_cap;
+static Janet g_put_k[VO_EXTRA], g_put_v[VO_EXTRA];
+static int g_put_target_ok, g_tostr_target_ok, g_str_ok;
+static JanetArray vo_array_obj; static JanetTable vo_table_obj; static JanetBuffer vo_buffer_obj; static JanetBuffer *vo_local_buffer;
+static JanetTupleHead *vo_tuple_head; static int32_t vo_tuple_flags0;
+static JanetKV vo_kv[VO_EXTRA]; static uint8_t vo_bytes[4]; static uint8_t vo_strmem[4];
+JanetArray *vo_array_n_stub(const Janet *elements, int32_t n) { g_mk_calls++; g_mk_mem = elements; g_mk_count = n; return &vo_array_obj; }
+JanetTuple vo_tuple_n_stub(const Janet *values, int32_t n) { g_mk_calls++; g_mk_mem = values; g_mk_count = n; return vo_tuple_head->data; }
+JanetTable *vo_table_stub(int32_t capacity) { g_mk_calls++; g_mk_cap = capacity; return &vo_table_obj; }
+void vo_table_put_stub(JanetTable *t, Janet key, Janet value) { if (g_put_calls < VO_EXTRA) { g_put_k[g_put_calls] = key; g_put_v[g_put_calls] = value; } if (t != &vo_table_obj) g_put_target_ok = 0; g_put_calls++; }
+JanetKV *vo_struct_begin_stub(int32_t count) { g_mk_calls++; g_mk_cap = count; return vo_kv; }
+void vo_struct_put_stub(JanetKV *st, Janet key, Janet value) { if (g_put_calls < VO_EXTRA) { g_put_k[g_put_calls] = key; g_put_v[g_put_calls] = value; } if (st != vo_kv || g_end_calls) g_put_target_ok = 0; g_put_calls++; }
+JanetStruct vo_struct_end_stub(JanetKV *st) { g_end_calls++; if (st != vo_kv) g_put_target_ok = 0; return vo_kv + 1; }
+JanetBuffer *vo_buffer_stub(int32_t capacity) { g_mk_calls++; g_mk_cap = capacity; vo_buffer_obj.count = 0; return &vo_buffer_obj; }
+JanetBuffer *vo_buffer_init_stub(JanetBuffer *buffer, int32_t capacity) { g_init_calls++; g_mk_cap = capacity; vo_local_buffer = buffer; buffer->data = vo_bytes; buffer->count = 0; buffer->capacity = capacity; return buffer; }
+void vo_buffer_deinit_stub(JanetBuffer *buffer) { g_deinit_calls++; if (buffer != vo_local_buffer || !g_str_calls) g_str_ok = 0; }
+void vo_to_string_b_stub(JanetBuffer *buffer, Janet x) {
+    if (g_tostr_calls < VO_EXTRA) g_put_k[g_tostr_calls] = x;
+    if (buffer != vo_local_buffer || g_str_calls) g_tostr_target_ok = 0;
+    int32_t add = nd_i32(); __CPROVER_assume(add >= 0 && add <= 1000); buffer->count += add;
+    g_tostr_calls++;
+}
+JanetString vo_string_stub(const uint8_t *buf, int32_t len) { g_str_calls++; if (buf != vo_bytes || len != vo_local_buffer->count) g_str_ok = 0; return vo_strmem; }
+
+#ifndef VO_MK
+#define VO_MK MK_ARRAY
+#endif
+static void vo_make(uint32_t d, int move_unused) {
+    (void) move_unused;
+    uint32_t op = VO_MK == MK_ARRAY ? JOP_MAKE_ARRAY : VO_MK == MK_TUPLE ? JOP_MAKE_TUPLE : VO_MK == MK_BTUPLE ? JOP_MAKE_BRACKET_TUPLE : VO_MK == MK_TABLE ? JOP_MAKE_TABLE
+                : VO_MK == MK_STRUCT ? JOP_MAKE_STRUCT : VO_MK == MK_STRING ? JOP_MAKE_STRING : JOP_MAKE_BUFFER;
+    vo_setup(VO_WD(op, d), d, 0, 0);
+    int32_t count = nd_i32();
+    __CPROVER_assume(count >= 0 && count <= VO_EXTRA);
+    vo_setup_args(count);
+    g_move = 0;
+    g_mk_calls = g_put_calls = g_end_calls = g_tostr_calls = g_str_calls = g_init_calls = g_deinit_calls = 0;
+    g_put_target_ok = g_tostr_target_ok = g_str_ok = 1;
+    vo_buffer_obj.count = 0; vo_local_buffer = &vo_buffer_obj;
+    vo_tuple_head = malloc(sizeof(JanetTupleHead) + VO_EXTRA * sizeof(Janet));
+    __CPROVER_assume(vo_tuple_head != (JanetTupleHead *)0);
+    vo_tuple_flags0 = nd_i32() & ~JANET_TUPLE_FLAG_BRACKETCTOR;
+    vo_tuple_head->gc.flags = vo_tuple_flags0;
+    JanetSignal sig = vo_run();
+    vo_continues6(sig, VO_START);                      /* the argument area is consumed */
+    const uint32_t at = VO_SLOTS + JANET_FRAME_SIZE;    /* index of the first argument in slots[] */
+    Janet r = vo_mem.slots[d];
+#if VO_MK == MK_ARRAY || VO_MK == MK_TUPLE || VO_MK == MK_BTUPLE
+    __CPROVER_assert(g_mk_calls == 1 && g_mk_mem == vo_data + VO_START && g_mk_count == count, "vm.op: the constructor receives exactly the argument area, all of it, in order");
+#if VO_MK == MK_ARRAY
+    __CPROVER_assert(r.type == JANET_ARRAY && r.as.pointer == &vo_array_obj, "vm.op: the destination slot holds the new array");
+#else
+    __CPROVER_assert(r.type == JANET_TUPLE && r.as.pointer == (void *) vo_tuple_head->data, "vm.op: the destination slot holds the new tuple");
+    __CPROVER_assert(vo_tuple_head->gc.flags == (VO_MK == MK_BTUPLE ? (vo_tuple_flags0 | JANET_TUPLE_FLAG_BRACKETCTOR) : vo_tuple_flags0), "vm.op: exactly the bracket constructor marks the tuple as a bracket tuple; nothing else about it changes");
+#endif
+#elif VO_MK == MK_TABLE || VO_MK == MK_STRUCT
+    __CPROVER_assert((count & 1) == 0, "vm.op: an odd number of arguments raises");
+    __CPROVER_assert(g_mk_calls == 1 && g_mk_cap == count / 2, "vm.op: one new container, sized for the number of pairs");
+    __CPROVER_assert(g_put_calls == count / 2 && g_put_target_ok, "vm.op: one put into the new container per pair");
+    for (int32_t i = 0; i < VO_EXTRA / 2; i++)
+        if (2 * i + 1 < count) __CPROVER_assert(same(g_put_k[i], vo_old[at + 2 * i]) && same(g_put_v[i], vo_old[at + 2 * i + 1]), "vm.op: the pairs are (argument 2i, argument 2i+1) = (key, value), put in argument order");
+#if VO_MK == MK_TABLE
+    __CPROVER_assert(r.type == JANET_TABLE && r.as.pointer == &vo_table_obj, "vm.op: the destination slot holds the new table");
+#else
+    __CPROVER_assert(g_end_calls == 1, "vm.op: the struct is finished exactly once, after all puts");
+    __CPROVER_assert(r.type == JANET_STRUCT && r.as.pointer == (void *)(vo_kv + 1), "vm.op: the destination slot holds the finished struct");
+#endif
+#else
+    __CPROVER_assert(g_tostr_calls == count && g_tostr_target_ok, "vm.op: every argument is appended once to the text under construction");
+    for (int32_t i = 0; i < VO_EXTRA; i++)
+        if (i < count) __CPROVER_assert(same(g_put_k[i], vo_old[at + i]), "vm.op: the arguments are appended in argument order, unchanged");
+#if VO_MK == MK_STRING
+    __CPROVER_assert(g_init_calls == 1 && g_str_calls == 1 && g_deinit_calls == 1 && g_str_ok && g_mk_calls == 0, "vm.op: the string is made once from the whole text, and the scratch buffer is released after that");
+    __CPROVER_assert(r.type == JANET_STRING && r.as.pointer == (void *) vo_strmem, "vm.op: the destination slot holds the new string");
+#else
+    __CPROVER_assert(g_mk_calls == 1 && g_init_calls == 0 && g_str_calls == 0, "vm.op: one new buffer");
+    __CPROVER_assert(r.type == JANET_BUFFER && r.as.pointer == &vo_buffer_obj, "vm.op: the destination slot holds the new buffer");
+#endif
+#endif
+    vo_cells_kept(d, VO_NDATA);
+    REACH("vm.op make");
+}
+void h_vo_make(void) { int k = nd_int(); if (k == 0) vo_make(0, 0); else if (k == 1) vo_make(3, 0); else vo_make(1, 0); }
+#endif
